@@ -617,7 +617,12 @@ AL4 = obj(
     dependent_required=(("dep_a", ("dep_b",)),),
     class_aliaser="cprefix",
 )
-ALIAS_OBJECTS = {"Al1": (AL1, ""), "Al2": (AL2, ""), "Al3": (AL3, ""), "Al4": (AL4, ""), "list(Al2)": (lst(AL2), ""), "map(Al1)": (mp(AL1), "")}
+AL5 = obj(
+    "Al5",
+    F("with_default", AL_IN, default=Fy("AlIn")),
+    F("own_field", INT, default=V("0")),
+)
+ALIAS_OBJECTS = {"Al5": (AL5, ""), "Al1": (AL1, ""), "Al2": (AL2, ""), "Al3": (AL3, ""), "Al4": (AL4, ""), "list(Al2)": (lst(AL2), ""), "map(Al1)": (mp(AL1), "")}
 
 
 @functools.lru_cache()
